@@ -217,10 +217,10 @@ def scripted_family(run, fam, quick):
         for b in behs:
             out.append((b, {"unbind_route": "1", "tls": "starttls"}))
             out.append((b, {"unbind_route": "0", "tls": "starttls", "tls_delay_after": "1"}))
-        # a long-lived session: the tunnel still answers after an idle period (2 s quick, 12 s thorough)
+        # a long-lived session: the tunnel still answers after an idle period (11 s quick, 31 s thorough: deadlines armed by a handshake or an upgrade must not outlive it)
         idle = scen.scripted(run, [[R, D("c1"), S("c1", "starttls"), S("c1", "op"), S("c1", "op"), S("c1", "op", True), rel("c1", 4)]], consts)[0]
         k = max(i for i, e in enumerate(idle) if e["a"] == "hend" and e["i"] == 2) + 1
-        idle = idle[:k] + [{"a": "sleep", "c": "", "i": 2000 if quick else 12000, "k": "", "s": "", "hold": False}] + idle[k:]
+        idle = idle[:k] + [{"a": "sleep", "c": "", "i": 11000 if quick else 31000, "k": "", "s": "", "hold": False}] + idle[k:]
         out.append((idle, {"unbind_route": "0", "tls": "starttls"}))
         return out
     elif fam == "timeout":
@@ -250,6 +250,29 @@ def scripted_family(run, fam, quick):
         out += [(b, {"unbind_route": "0", "read_timeout_ms": ms, "tls": "starttls"}) for b in scen.scripted(run, stls, dict(base, AllowSilent="TRUE"))]
         tl = [[R, D("c1", "silent"), T("c1")], [R, D("c1", "valid"), S("c1", "op"), T("c1")], [R, D("c1", "valid"), T("c1"), stop1]]
         out += [(b, {"unbind_route": "0", "read_timeout_ms": ms, "tls": "tls"}) for b in scen.scripted(run, tl, dict(base, TLSMode='"server"'))]
+        return out
+    elif fam == "idle":
+        # long-lived sessions: a connection that has been idle for a while (11 s; thorough 31 s) is served like a fresh one
+        # (nothing armed at accept / handshake time may cut it off later), plain and on a TLS listener, with a handler
+        # that has been running all the while
+        R, D = {"a": "run"}, lambda c: {"a": "dial", "c": c}
+        S = lambda c, k, hold=False: {"a": "send", "c": c, "k": k, "hold": hold}
+        rel = lambda c, i: {"a": "release", "c": c, "i": i}
+        ms = 11000 if quick else 31000
+        consts = {"Conns": '{"c1", "c2"}', "MaxReq": "4", "FrameKinds": '{"op", "unbind"}'}
+        scripts = [[R, D("c1"), S("c1", "op"), S("c1", "op")],
+                   [R, D("c1"), D("c2"), S("c2", "op", True), S("c1", "op"), rel("c2", 1), S("c2", "op"), S("c1", "unbind")]]
+        out = []
+        for tls, extra in (("", {}), ("tls", {"TLSMode": '"server"'})):
+            for n, b in enumerate(scen.scripted(run, scripts, dict(consts, **extra))):
+                # the pause comes before the last send to c1
+                k = max(i for i, e in enumerate(b) if e["a"] == "send" and e["c"] == "c1")
+                if n == 1:
+                    k = next(i for i, e in enumerate(b) if e["a"] == "release")
+                cfgv = {"unbind_route": "0"}
+                if tls:
+                    cfgv["tls"] = tls
+                out.append((b[:k] + [{"a": "sleep", "c": "", "i": ms, "k": "", "s": "", "hold": False}] + b[k:], cfgv))
         return out
     elif fam == "outliving":
         # a handler that outlives its client by several seconds while other connections come and go: the connection (and
@@ -304,7 +327,14 @@ def scripted_family(run, fam, quick):
         scripts = [[R, D("c1"), S("c1", "op", True), S("c1", "starttls"), rel("c1", 1), S("c1", "op")],
                    [R, D("c1"), S("c1", "op", True), S("c1", "op", True), S("c1", "starttls"), rel("c1", 2), rel("c1", 1), {"a": "stop", "s": "s1"}]]
         consts = {"Conns": '{"c1"}', "MaxReq": "4", "FrameKinds": '{"starttls", "op"}'}
-        return [(b, {"unbind_route": "0", "tls": "starttls"}) for b in scen.scripted(run, scripts, consts)] * 3
+        out = [(b, {"unbind_route": "0", "tls": "starttls"}) for b in scen.scripted(run, scripts, consts)] * 3
+        # ... and released just before the StartTLS request is sent, finishing by itself while the connection is upgraded
+        # (no harness synchronisation between its Write and the upgrade)
+        late = [[R, D("c1"), S("c1", "op", True), rel("c1", 1), S("c1", "starttls")],
+                [R, D("c1"), S("c1", "op", True), S("c1", "op", True), rel("c1", 2), rel("c1", 1), S("c1", "starttls")]]
+        pause = {"a": "sleep", "c": "", "i": 150, "k": "", "s": "", "hold": False}     # let the released handlers finish
+        out += [(b + [pause], {"unbind_route": "0", "tls": "starttls", "async_release": "1"}) for b in scen.scripted(run, late, consts)] * 4
+        return out
     elif fam == "ready":
         ok_addrs = ["", "ipv6", "ipv6-bare", "host", "port-only"]
         bad_addrs = ["in-use", "in-use-gldap", "bad-noport", "bad-ipv4", "bad-ipv6", "bad-bracket", "bad-emptyport", "bad-brackets-empty", "bad-brackets-host"]
@@ -333,7 +363,7 @@ def scripted_family(run, fam, quick):
     return [(b, dict(cfgs[n % len(cfgs)])) for n, b in enumerate(behs)]
 
 
-SCRIPTED = {"deep", "manyconns", "ready", "stopstates", "starttls2", "starttls-inflight", "starttls-close", "timeout", "starttls-adversarial", "outliving"}
+SCRIPTED = {"deep", "manyconns", "ready", "stopstates", "starttls2", "starttls-inflight", "starttls-close", "timeout", "starttls-adversarial", "outliving", "idle"}
 
 
 def run_families(run, names, cap):
@@ -391,6 +421,14 @@ def check(run, pid, families, extra=None):
     acov = action_coverage(run, q)
     live = scen.design_check(run, LIVE, DESIGN_INV, properties=LIVE_PROPS, workers=4)
     mc = live if q else scen.design_check(run, DESIGN["thorough"], DESIGN_INV, workers=12, timeout=5400)
+    if not q:
+        # beyond the exhaustive bounds: random walks of the design model with three connections, three requests each, every
+        # frame kind, read deadlines and two concurrent Stop callers (TLC -simulate; invariants only)
+        big = {"Conns": '{"c1", "c2", "c3"}', "MaxReq": "3", "Stoppers": '{"s1", "s2"}', "FrameKinds": '{"op", "unbind", "starttls", "partial", "bad"}', "ReadTimeout": "TRUE"}
+        body = "SPECIFICATION Spec\nINVARIANTS TypeOK %s\nCHECK_DEADLOCK FALSE\n" % " ".join(DESIGN_INV)
+        sim = run.tlc("Gldap", scen.cfg(big, body), workers=8, timeout=1800, simulate="num=40000", depth=150, extra=["-seed", str(run.seed)])
+        if sim.violations:
+            raise vlib.Infra("design model Gldap.tla violates %s in simulation (model-only: fix the spec)" % sim.violations[0]["name"])
     scenarios, stats = run_families(run, families, cap=1200 if q else None)
     rows, trace = scen.replay(run, scenarios, par=8)
     # scenarios whose timed steps ran late (a read deadline fired before the model's "timeout" step): not judged
